@@ -470,6 +470,8 @@ class SymArray:
         return self.shape[0]
 
     def _scalar(self, e):
+        if self.dtype.fields is not None:
+            return e if isinstance(e, RecVal) else RecVal(self.dtype, e)
         if self.dtype.kind in "iu" and not isinstance(e, NpInt):
             return NpInt(self.dtype, e)
         return e
@@ -509,6 +511,9 @@ class SymArray:
         if len(ii) != self.ndim:
             raise Unsupported("assignment to a sub-array")
         base = sum(i * s for i, s in zip(ii, c_strides(self.shape)))
+        if self.dtype.fields is not None:
+            self.elems[base] = RecVal.assign(self.dtype, val)
+            return
         if self.dtype.kind in "iu":
             if isinstance(val, NpInt):
                 val = np_wrap(self.dtype, val.v) if val.dtype != self.dtype else val.v      # numpy casts numpy scalars on assignment
@@ -609,6 +614,16 @@ class SymArray:
         """little-endian memory image of one element as BV8 terms"""
         from . import mem
         k, n = self.dtype.kind, self.itemsize
+        if self.dtype.fields is not None:
+            # structured element: every field's image at its offset; the bytes in between (alignment padding) read as 0,
+            # as in an array made by np.zeros and filled field by field
+            cells = [mem.ZERO8] * n
+            rec = self._scalar(e)
+            for name, v in zip(self.dtype.names, rec.vals):
+                fdt, off = self.dtype.fields[name][0], self.dtype.fields[name][1]
+                fc = SymArray(fdt, (), [v]).elem_cells(v)
+                cells[off:off + len(fc)] = fc
+            return cells
         if isinstance(e, NpInt):
             e = e.v
         if k in "iu":
@@ -664,6 +679,80 @@ class SymArray:
         return "<SymArray %s %s>" % (self.dtype, self.shape)
 
 
+class RecVal:
+    """numpy.void: one element of an array with a structured dtype (field values in declaration order; python numbers,
+    SymInt / SymBool / SymFloat / SymComplex).  value['name'] is the field as a numpy scalar of the field's dtype."""
+    pysym_void = True
+
+    def __init__(self, dtype, vals):
+        self.dtype = _np.dtype(dtype)
+        vals = list(vals.vals) if isinstance(vals, RecVal) else list(vals)
+        if len(vals) != len(self.dtype.names):
+            raise ValueError("could not assign tuple of length %d to structure with %d fields" % (len(vals), len(self.dtype.names)))
+        self.vals = [v.v if isinstance(v, NpInt) else v for v in vals]
+
+    @staticmethod
+    def zero(dtype):
+        dt = _np.dtype(dtype)
+        return RecVal(dt, [(0.0 if dt.fields[n][0].kind == "f" else 0j if dt.fields[n][0].kind == "c" else False if dt.fields[n][0].kind == "b" else 0) for n in dt.names])
+
+    @staticmethod
+    def assign(dtype, val):
+        """arr[i] = val for a structured array: a tuple (one value per field) or another structured scalar"""
+        dt = _np.dtype(dtype)
+        if isinstance(val, RecVal):
+            val = tuple(val.vals)
+        if not isinstance(val, tuple):
+            raise Unsupported("assignment of %r to an element of a structured array" % type(val))
+        out = []
+        if len(val) != len(dt.names):
+            raise ValueError("could not assign tuple of length %d to structure with %d fields" % (len(val), len(dt.names)))
+        for n, v in zip(dt.names, val):
+            fdt = dt.fields[n][0]
+            if fdt.kind in "iu":
+                if isinstance(v, NpInt):
+                    v = np_wrap(fdt, v.v) if v.dtype != fdt else v.v
+                elif isinstance(v, _np.integer):
+                    v = np_wrap(fdt, int(v))
+                elif isinstance(v, (int, SymInt, SymBool)):
+                    v = _weak(fdt, SymInt(bv(v)) if isinstance(v, SymBool) else v)
+                else:
+                    raise Unsupported("structured field assignment from %r" % type(v))
+            elif fdt.fields is not None or fdt.subdtype is not None:
+                raise Unsupported("nested structured / sub-array field")
+            out.append(v)
+        return RecVal(dt, out)
+
+    def _field(self, i):
+        fdt = self.dtype.fields[self.dtype.names[i]][0]
+        v = self.vals[i]
+        return NpInt(fdt, v) if fdt.kind in "iu" else v
+
+    def __getitem__(self, k):
+        if isinstance(k, str):
+            if k not in self.dtype.names:
+                raise IndexError("no field of name " + k)
+            return self._field(self.dtype.names.index(k))
+        return self._field(range(len(self.vals))[int(k)])
+
+    def __len__(self):
+        return len(self.vals)
+
+    def __iter__(self):
+        return (self._field(i) for i in range(len(self.vals)))
+
+    def item(self):
+        return tuple(self.vals)
+
+    tolist = item
+
+    def eval_obs(self, m):
+        return [core.eval_obs(m, v) for v in self.vals]
+
+    def __repr__(self):
+        return "<RecVal %s>" % (self.dtype,)
+
+
 class _FlatIter:
     """numpy.flatiter: the elements in logical row-major order, whatever the memory layout"""
 
@@ -700,6 +789,10 @@ def new_array(shape, dtype):
             d = ctx().concretize(d, "np.ndarray dimension")
         dims.append(int(d))
     dt = _np.dtype(dtype)
+    if dt.fields is not None and dt.subdtype is None:
+        if any(d < 0 for d in dims):
+            raise ValueError("negative dimensions are not allowed")
+        return SymArray(dt, dims, [RecVal.zero(dt) for _ in range(_prod(dims))])
     if dt.kind not in "iub":
         raise Unsupported("np.ndarray of dtype %s on a symbolic path" % dt)
     if any(d < 0 for d in dims):
